@@ -4,7 +4,7 @@
 def nontrivial(d):
     # at least one restriction below the train's own maximum speed
     vmax = d["train"]["vmax"]
-    return any(r[2] < vmax for l in d["links"] for r in l["rs"])
+    return any(abs(r[2]) < vmax for l in d["links"] for r in l["rs"])
 
 
 def _corrupt(ev, delta, expect):
@@ -22,7 +22,7 @@ RULE = ("cases = every configuration reached by TLC in the bounded SpeedProfile 
         "descriptors (sha256); non-trivial = at least one restriction below the train's maximum speed")
 
 ASSUME = ["networks are materialised through Network::from_json (validation accepted them)",
-          "positive finite restriction speeds; one car type per train (gates compare n*car_mass, car_mass, n*axles)",
+          "finite non-zero restriction speeds, negative values being the sign-encoded variant the simulator enforces by magnitude; one car type per train (gates compare n*car_mass, car_mass, n*axles)",
           "step functions are compared at every breakpoint of either side (decides equality everywhere)"]
 
 GROUP = dict(
@@ -31,9 +31,11 @@ GROUP = dict(
     models={
         "quick": [dict(cfg="MCSpeedProfile_quickA.cfg", emit=True, max_emit=6000),
                   dict(cfg="MCSpeedProfile_gates.cfg", emit=True),
+                  dict(cfg="MCSpeedProfile_quickN.cfg", emit=True, max_emit=1500),
                   dict(cfg="MCSpeedProfile_quickB.cfg", emit=False, timeout=300, coverage=False)],
         "thorough": [dict(cfg="MCSpeedProfile_quickA.cfg", emit=True),
                      dict(cfg="MCSpeedProfile_gates.cfg", emit=True),
+                     dict(cfg="MCSpeedProfile_quickN.cfg", emit=True),
                      dict(cfg="MCSpeedProfile_quickB_emit.cfg", emit=True, max_emit=30000, workers=16, timeout=900, coverage=False),
                      dict(cfg="MCSpeedProfile_thoroughA.cfg", emit=False, workers=16, timeout=1800),
                      dict(cfg="MCSpeedProfile_thoroughB.cfg", emit=False, workers=16, timeout=3600)],
